@@ -44,6 +44,30 @@ func (vc *VC) callModelled(st *State, o *types.Func, recv *Val, argv []Val, c *a
 		norg := vc.fresh("org", "Int")
 		vc.assume(st, fmt.Sprintf("(> %s 0)", norg))
 		nl := vc.define("ilen", "Int", fmt.Sprintf("(+ %s %s)", ln, vn))
+		{
+			var single []string
+			if !c.Ellipsis.IsValid() {
+				for _, v := range argv[2:] {
+					single = append(single, v.S)
+				}
+			}
+			iS, lnS, vnS, arrS, varrS := i.S, ln, vn, arr, varr
+			vc.sumFacts(st, es, func(ps func(a, n string) string, f string) []string {
+				mid := ps(varrS, vnS)
+				if single != nil {
+					mid = "(+ 0"
+					for _, v := range single {
+						mid += fmt.Sprintf(" (uf_%s %s)", f, v)
+					}
+					mid += ")"
+				}
+				return []string{
+					fmt.Sprintf("(= %s %s)", ps(na, iS), ps(arrS, iS)),
+					fmt.Sprintf("(= %s (+ %s %s))", ps(na, fmt.Sprintf("(+ %s %s)", iS, vnS)), ps(na, iS), mid),
+					fmt.Sprintf("(= %s (+ %s (- %s %s)))", ps(na, nl), ps(na, fmt.Sprintf("(+ %s %s)", iS, vnS)), ps(arrS, lnS), ps(arrS, iS)),
+				}
+			})
+		}
 		return one(Val{S: fmt.Sprintf("(mk_%s %s %s %s)", s.Sort, na, nl, norg), Ty: s.Ty, Sort: s.Sort})
 	case "slices.Delete":
 		trusted()
@@ -62,6 +86,12 @@ func (vc *VC) callModelled(st *State, o *types.Func, recv *Val, argv []Val, c *a
 		vc.assume(st, fmt.Sprintf("(forall ((k Int)) (! (= (select %s k) (ite (< k %s) (select %s k) (select %s (+ k (- %s %s))))) :pattern ((select %s k))))",
 			na, i.S, arr, arr, j.S, i.S, na))
 		nl := vc.define("dlen", "Int", fmt.Sprintf("(- %s (- %s %s))", ln, j.S, i.S))
+		vc.sumFacts(st, es, func(ps func(a, n string) string, f string) []string {
+			return []string{
+				fmt.Sprintf("(= %s %s)", ps(na, i.S), ps(arr, i.S)),
+				fmt.Sprintf("(= %s (+ %s (- %s %s)))", ps(na, nl), ps(arr, i.S), ps(arr, ln), ps(arr, j.S)),
+			}
+		})
 		return one(Val{S: fmt.Sprintf("(mk_%s %s %s %s)", s.Sort, na, nl, org), Ty: s.Ty, Sort: s.Sort})
 	case "slices.Clone":
 		trusted()
@@ -112,15 +142,11 @@ func (vc *VC) callModelled(st *State, o *types.Func, recv *Val, argv []Val, c *a
 		// target is &x with x of pointer type T: result = errAs_T(err); x havocked (done by out-param handling)
 		errv := argv[0]
 		tt := vc.typeOf(c.Args[1])
-		tid := 0
-		if pt, ok := tt.Underlying().(*types.Pointer); ok {
-			tid = vc.eng.sorts.tid(pt.Elem())
+		pt, ok := tt.Underlying().(*types.Pointer)
+		if !ok {
+			return nil, false
 		}
-		fn := fmt.Sprintf("errAs_%d", tid)
-		vc.declareFun(fn, []string{"Int"}, "Bool")
-		vc.needDyntype()
-		vc.assume(st, fmt.Sprintf("(=> (and (not (= %s 0)) (= (dyntype %s) %d)) (%s %s))", errv.S, errv.S, tid, fn, errv.S))
-		return one(Val{S: fmt.Sprintf("(%s %s)", fn, errv.S), Ty: types.Typ[types.Bool], Sort: "Bool"})
+		return one(Val{S: vc.errAsTerm(st, errv.S, pt.Elem()), Ty: types.Typ[types.Bool], Sort: "Bool"})
 	case "fmt.Errorf", "errors.New":
 		trusted()
 		// a fresh, non-nil, uncategorised error
